@@ -38,6 +38,11 @@ func pub(secret []byte) []byte {
 	return y.FillBytes(make([]byte, 96))
 }
 
+// Shared returns the Diffie-Hellman secret S (96 bytes, big-endian, leading
+// zeros kept, as the MSE specification prescribes) for a private value and the
+// peer's public value.
+func Shared(secret, other []byte) []byte { return shared(secret, other) }
+
 func shared(secret, other []byte) []byte {
 	x := new(big.Int).SetBytes(secret)
 	y := new(big.Int).SetBytes(other)
@@ -106,6 +111,7 @@ type ClientParams struct {
 	// offers a single method, otherwise it cannot know the cipher).
 	Pipeline []byte
 	S        []byte // out: the shared secret
+	PeerPub  []byte // out: Yb as received
 }
 
 // Client runs side A.  It returns the payload stream and crypto_select.
@@ -120,6 +126,7 @@ func Client(c io.ReadWriter, p *ClientParams) (*Stream, uint32, error) {
 	}
 	s := shared(p.Secret, yb)
 	p.S = s
+	p.PeerPub = append([]byte{}, yb...)
 	a2b, b2a := Keys(s, p.SKey)
 	msg := append(h([]byte("req1"), s), xor(h([]byte("req2"), p.SKey), h([]byte("req3"), s))...)
 	plain := append([]byte{0, 0, 0, 0, 0, 0, 0, 0}, be32(p.Provide)...)
@@ -204,6 +211,7 @@ type ServerParams struct {
 	IA      []byte
 	Provide uint32
 	S       []byte
+	PeerPub []byte // Ya as received
 }
 
 // Server runs side B.
@@ -218,6 +226,7 @@ func Server(c io.ReadWriter, p *ServerParams) (*Stream, error) {
 	}
 	s := shared(p.Secret, ya)
 	p.S = s
+	p.PeerPub = append([]byte{}, ya...)
 	req1 := h([]byte("req1"), s)
 	var win []byte
 	for i := 0; ; i++ {
